@@ -7,6 +7,8 @@
 //!
 //!   seq gen    --profile P --seed S --cases N --out ops.txt
 //!   seq run    --ops ops.txt --out impl.txt [--profile P]     implementation observations
+//!              [--trace-out F [--trace-cases N]]              + hook trace (class `ts`, notes, memo publish) of the
+//!                                                             first N cases, each after a `reset` line, for `svdriver structs`
 //!   seq oracle --ops ops.txt --impl impl.txt [--profile P]    property oracle on the observations
 use salsa::{Database, Durability, Setter};
 use std::collections::HashMap;
@@ -85,6 +87,8 @@ impl PartialEq for PV {
             if v > 0 {
                 t.set(v - 1);
                 if v == 1 {
+                    // for `svdriver structs`: the single tracked field was not yet compared
+                    salsa::verif_hooks::trace::note("eq-panic 0");
                     panic!("injected-panic eq");
                 }
             }
@@ -209,6 +213,7 @@ fn interp<'db>(db: &'db dyn PDb, e: &E, cx: Cx) -> V<'db> {
         E::Mk(k, v, f, s) if matches!(**k, E::C(n) if n >= 1000) => {
             let kk = interp(db, k, cx).0 % 2;
             let vv = interp(db, v, cx).0;
+            salsa::verif_hooks::trace::note(&format!("new U {kk} {vv}"));
             let t = Ts::new(db, kk, PV(vv));
             let ff = interp(db, f, cx).0;
             let ss = interp(db, s, cx).0;
@@ -222,6 +227,8 @@ fn interp<'db>(db: &'db dyn PDb, e: &E, cx: Cx) -> V<'db> {
             let vv = interp(db, v, cx).0;
             let ff = interp(db, f, cx).0;
             let ss = interp(db, s, cx).0;
+            // field values for `svdriver structs` (no-op unless a trace is being recorded)
+            salsa::verif_hooks::trace::note(&format!("new U {kk} {vv}"));
             let t = Ts::new(db, kk, PV(vv));
             if ff % 2 == 1 {
                 spec::specify(db, t, ss);
@@ -637,6 +644,10 @@ impl Runner {
                 "ok".into()
             }
         };
+        if let Some(class) = r.strip_prefix("panic:") {
+            // for `svdriver structs`: the unwind reached the harness
+            salsa::verif_hooks::trace::note(&format!("caught {class}"));
+        }
         let ev = self.canon_events();
         match op {
             Op::Get(_) | Op::Acc(_) => format!("{} ev={}", r, if ev.is_empty() { "-".to_string() } else { ev.join(",") }),
@@ -649,7 +660,7 @@ impl Runner {
 }
 
 /// Runs every case of an op file; one output line per input line (`ok` for header lines).
-fn run_file(text: &str, out: &mut dyn std::io::Write, ids: &mut dyn std::io::Write) {
+fn run_file(text: &str, out: &mut dyn std::io::Write, ids: &mut dyn std::io::Write, mut trace_out: Option<&mut dyn std::io::Write>, trace_cases: usize) {
     // header lines belong to the case that follows; we need whole cases, so parse all first
     let cases = match Case::parse_all(text) {
         Ok(c) => c,
@@ -658,16 +669,25 @@ fn run_file(text: &str, out: &mut dyn std::io::Write, ids: &mut dyn std::io::Wri
             std::process::exit(2);
         }
     };
-    for case in &cases {
+    for (case_no, case) in cases.iter().enumerate() {
+        if case_no == trace_cases {
+            trace_out = None;
+        }
         let header = case.to_lines().len() - case.ops.len();
         for _ in 0..header {
             writeln!(out, "ok").unwrap();
             writeln!(ids, "-").unwrap();
         }
+        if trace_out.is_some() {
+            // `--trace-out`: record the tracked-struct protocol lines (class `ts`) of this case
+            salsa::verif_hooks::trace::enable();
+            salsa::verif_hooks::trace::set_struct_tracing(true);
+        }
         let mut r = Runner::new(case);
         let has_lru = case.prog.nodes.iter().any(|n| n.0 == Kind::Lru);
         for op in &case.ops {
             r.last_tsid.borrow_mut().clear();
+            salsa::verif_hooks::trace::note(&format!("op {}", op.to_line()));
             let line = r.step(op);
             writeln!(out, "{}", line).unwrap();
             let id = r.last_tsid.borrow().clone();
@@ -679,6 +699,16 @@ fn run_file(text: &str, out: &mut dyn std::io::Write, ids: &mut dyn std::io::Wri
                 writeln!(ids, "ret={}", n).unwrap();
             } else {
                 writeln!(ids, "{}", if id.is_empty() { "-" } else { &id }).unwrap();
+            }
+        }
+        if let Some(w) = trace_out.as_mut() {
+            salsa::verif_hooks::trace::disable();
+            salsa::verif_hooks::trace::set_struct_tracing(false);
+            writeln!(w, "reset").unwrap();
+            for l in salsa::verif_hooks::trace::take() {
+                if l.starts_with("ts ") || l.starts_with("note ") || l.starts_with("memo publish ") {
+                    writeln!(w, "{l}").unwrap();
+                }
             }
         }
     }
@@ -1190,7 +1220,9 @@ fn main() {
             // side channel (not part of the line protocol): salsa ids of returned tracked structs
             let g = std::fs::File::create(format!("{}.ids", args.get("--out").unwrap())).unwrap();
             let mut wi = std::io::BufWriter::new(g);
-            run_file(&text, &mut w, &mut wi);
+            // `--trace-out FILE`: hook trace (class `ts`) of every case, for `svdriver structs`
+            let mut wt = args.get("--trace-out").map(|p| std::io::BufWriter::new(std::fs::File::create(p).unwrap()));
+            run_file(&text, &mut w, &mut wi, wt.as_mut().map(|w| w as &mut dyn std::io::Write), args.num("--trace-cases", u64::MAX) as usize);
         }
         "oracle" => {
             let text = std::fs::read_to_string(args.get("--ops").expect("--ops")).unwrap();
